@@ -72,7 +72,9 @@ impl TriaxialEllipsoid {
             if let Ok(ax) = a_and_rf[0].trim().parse::<f64>() {
                 if let Ok(ay) = a_and_rf[semimedian_index].trim().parse::<f64>() {
                     if let Ok(rf) = a_and_rf[semimedian_index + 1].trim().parse::<f64>() {
-                        return Ok(TriaxialEllipsoid::new(ax, ay, 1. / rf));
+                        // Zero reciproque flattening indicates zero flattening here as well
+                        let f = if rf != 0.0 { 1.0 / rf } else { rf };
+                        return Ok(TriaxialEllipsoid::new(ax, ay, f));
                     }
                 }
             }
